@@ -63,10 +63,31 @@ def cases(tier, seed):
                     L["thickness"] = round(b - a, 2)
             s["kw"]["dz"] = dz
         iw = gen.iwc_depth_spec(rng, s) if i % 2 else gen.iwc_spec(rng, s)
+        gw = None
+        if i % 6 == 3:
+            # a water table changes a field-capacity *request* only: every other request - a
+            # percentage or a number that happens to equal field capacity included - stands
+            hyd = gen.layer_hyd(s)
+            nl = gen.soil_layers(s)
+            if i % 12 == 3 or any(h is None for h in hyd):
+                iw = {"wc_type": "Pct", "method": "Layer", "depth_layer": list(range(1, nl + 1)),
+                      "value": [float(gen.pick(rng, [100, 100, 50, 0])) for _ in range(nl)]}
+            else:
+                iw = {"wc_type": "Num", "method": "Layer", "depth_layer": list(range(1, nl + 1)),
+                      "value": [float(h[1]) if gen.chance(rng, 0.7) else round(h[0] * float(gen.pick(rng, [0.6, 0.8])), 3) for h in hyd]}
+            gw = {"method": "Constant", "dates": ["2001/05/01"], "values": [float(gen.pick(rng, [0.6, 1.0, 1.5, 2.2]))]}
+        elif i % 6 == 5 and iw["wc_type"] == "Num" and iw["method"] == "Layer":
+            # numbers between air-dry and wilting point are valid requests too
+            hyd = gen.layer_hyd(s)
+            if not any(h is None for h in hyd):
+                iw["value"] = [round(hyd[int(L) - 1][0] * float(gen.pick(rng, [0.55, 0.7, 0.9])), 3) if gen.chance(rng, 0.5) else v
+                               for L, v in zip(iw["depth_layer"], iw["value"])]
         sp = {"start": "2001/05/01", "end": "2002/12/31", "off_season": False,
               "weather": {"kind": "synth", "seed": 11, "regime": "warm"},
               "soil": s, "crop": {"name": crop, "planting": "05/01", "harvest": "10/30", "kw": {}},
               "iwc": iw, "irr": {"method": 0, "kw": {}, "schedule": None}}
+        if gw:
+            sp["gw"] = gw
         out.append({"spec": sp})
     return out
 
@@ -247,6 +268,17 @@ def run_case(case):
             pts.append(float(z))
         mids = refdz - dz / 2
         want = np.interp(mids, pts, vals)
+    if want is not None and spec.get("gw") and len(th) == n:
+        # documented: compartments below a water table start saturated.  C18 does not say which
+        # notion of "below" applies (C19 does, for the daily state), so either the requested value
+        # or saturation is accepted for a compartment whose centre lies at or below the table
+        zg = float(spec["gw"]["values"][0])
+        mids_ = refdz - dz / 2
+        below = mids_ >= zg
+        sat = np.array([lay[ref_layer[i] - 1][2] if 0 <= ref_layer[i] - 1 < len(lay) else want[i] for i in range(n)])
+        want = np.where(below & (np.abs(th - sat) <= 1e-12), sat, want)
+        cov["iwc_with_water_table"] += 1
+        cov["iwc_compartments_above_table"] += int((~below).sum())
     if want is not None and (len(th) != n or np.any(np.abs(th - want) > 1e-12)):
         i = int(np.argmax(np.abs(th - want))) if len(th) == n else 0
         acc.add("initial-water-content", f"compartment {i}: initial water content {th[i] if len(th) == n else None!r}, the "
